@@ -204,7 +204,38 @@ func topoStages(in []config.VerifStageDef) []config.VerifStageDef {
 	return out
 }
 
+// varsOnly keeps the variables part of a snapshot (and its phase prefix): C10 is about variables only.
+func varsOnly(s string) string {
+	pre := ""
+	if i := strings.Index(s, "env{"); i > 0 {
+		pre = s[:i]
+	}
+	i, j := strings.Index(s, "vars{"), strings.Index(s, "} dir=")
+	if i < 0 || j < i {
+		return s
+	}
+	return pre + s[i:j+1]
+}
+
+// judge decides one execution for C08 (env, variables and dir) or, with -prop C10, for C10 (the stage's
+// variables have the highest precedence for that stage, under every schedule, and for that stage only).
 func judge(c *Cfg, x *vrt.Execution) (string, string) {
+	k, d := judge08(c, x)
+	if k != "" && prop() == "C10" {
+		k = "C10:" + strings.TrimPrefix(k, "C08:")
+	}
+	return k, d
+}
+
+func prop() string {
+	if *common.Prop == "C10" {
+		return "C10"
+	}
+	return "C08"
+}
+
+func judge08(c *Cfg, x *vrt.Execution) (string, string) {
+	c10 := prop() == "C10"
 	if x.Outcome != vrt.Completed {
 		return "C08:" + x.Outcome, fmt.Sprintf("%s %s %v %s", x.Outcome, x.PanicVal, x.Blocked, x.Stack)
 	}
@@ -217,6 +248,9 @@ func judge(c *Cfg, x *vrt.Execution) (string, string) {
 		case "phase":
 			phase = e.Arg
 		case "changed-during-run":
+			if parts := strings.SplitN(e.Arg, " => ", 2); c10 && len(parts) == 2 && varsOnly(parts[0]) == varsOnly(parts[1]) {
+				continue
+			}
 			return "C08:task-changed-while-running", "the task object handed to the runner changed while the stage was running: " + e.Arg
 		case "rec":
 			switch phase {
@@ -229,6 +263,14 @@ func judge(c *Cfg, x *vrt.Execution) (string, string) {
 	}
 	want := expected(c)
 	g2, w2 := append([]string{}, got...), append([]string{}, want...)
+	if c10 {
+		for i := range g2 {
+			g2[i] = varsOnly(g2[i])
+		}
+		for i := range w2 {
+			w2[i] = varsOnly(w2[i])
+		}
+	}
 	sort.Strings(g2)
 	sort.Strings(w2)
 	if strings.Join(g2, "\n") != strings.Join(w2, "\n") {
@@ -274,7 +316,7 @@ func main() {
 		}
 		if k, d := judge(&rf.Cfg, x); k != "" {
 			fmt.Println("oracle:", k, d)
-			fmt.Printf("VIOLATION property=C08 replay=%s\n", *common.Replay)
+			fmt.Printf("VIOLATION property=%s replay=%s\n", prop(), *common.Replay)
 			os.Exit(1)
 		}
 		return
@@ -339,8 +381,8 @@ func main() {
 				fmt.Fprintln(os.Stderr, "non-deterministic replay")
 				os.Exit(2)
 			}
-			return res.AddViolation(common.Violation{Property: "C08", Key: key + "|" + c.String(), Desc: c.String() + ": " + desc, Config: c, Choices: vx.Choices},
-				rfT{Harness: "overrides", Property: "C08", Cfg: c, Choices: vx.Choices})
+			return res.AddViolation(common.Violation{Property: prop(), Key: key + "|" + c.String(), Desc: c.String() + ": " + desc, Config: c, Choices: vx.Choices},
+				rfT{Harness: "overrides", Property: prop(), Cfg: c, Choices: vx.Choices})
 		}
 		return false
 	}
